@@ -84,6 +84,14 @@ def proj_num(x):
     return [f.numerator, f.denominator]
 
 
+def proj_int(x):
+    """integer-valued number -> int; anything else -> a sentinel that equals no expectation"""
+    q = proj_num(x)
+    if q is None or q[1] != 1:
+        return {"not-an-integer": repr(x)[:40]}
+    return q[0]
+
+
 def proj_seq(xs):
     out = [proj_num(x) for x in xs]
     return None if any(o is None for o in out) else out
@@ -130,6 +138,20 @@ def proj_poly(expr, names):
     import re
     import sympy
     expr = sympy.sympify(expr)
+    # half-integer powers of a symbol (c**1.5, c**(3/2)): c**(h/2) is written with the variable
+    # "sqrt_<c>" (exponent h mod 2) and c (exponent h div 2); other non-integer powers are not
+    # monomials of the vocabulary -> un-encodable
+    roots = {}
+    pows = [q for q in expr.atoms(sympy.Pow) if not q.exp.is_Integer]
+    if pows:
+        rep = {}
+        for q in pows:
+            e = sympy.nsimplify(q.exp, rational=True) if q.exp.is_number else None
+            if e is None or not q.base.is_Symbol or not e.is_Rational or e.q != 2 or e.p < 0:
+                return None
+            root = roots.setdefault(q.base, sympy.Symbol("sqrt_" + q.base.name, positive=True))
+            rep[q] = root ** int(e.p)
+        expr = expr.xreplace(rep)
     syms = sorted(expr.free_symbols, key=lambda s: s.name)
     if not syms:
         c = proj_num(expr)
@@ -152,12 +174,19 @@ def proj_poly(expr, names):
         e = []
         if len(ks) == 1 and ks[0][1] == 1:
             p = int(ks[0][0][1:])
+        acc = {}
         for s, x in zip(syms, exps):
             if not x:
                 continue
             if p and s.name == "k%d" % p:
                 continue
-            e.append([s.name, int(x)])
+            if s in roots.values():
+                base = s.name[5:]
+                acc[base] = acc.get(base, 0) + int(x) // 2
+                acc[s.name] = acc.get(s.name, 0) + int(x) % 2
+            else:
+                acc[s.name] = acc.get(s.name, 0) + int(x)
+        e = [[n, x] for n, x in acc.items() if x]
         out.append([c, p, e])
     return canon_poly(out)
 
@@ -187,7 +216,8 @@ def actualize(cin):
     out = dict(cin)
     out["subst"] = [f(s) for s in cin["subst"]]
     out["names"] = list(out["subst"])
-    out["rxns"] = [dict(rx, **{part: [[f(k), v] for k, v in rx[part]] for part in ("reac", "prod", "ireac", "iprod")})
+    out["rxns"] = [dict(rx, **{part: [[f(k), v] for k, v in rx.get(part) or []]
+                               for part in ("reac", "prod", "ireac", "iprod", "half")})
                    for rx in cin["rxns"]]
     out["feed"] = dict(cin["feed"], order=[f(s) for s in cin["feed"].get("order") or []])
     if "bind" in cin:
@@ -217,6 +247,8 @@ def unname_obs(obs, inv):
             return "fc_" + inv[k[3:]]
         if isinstance(k, str) and k.startswith("c_") and k[2:] in inv:
             return "c_" + inv[k[2:]]
+        if isinstance(k, str) and k.startswith("sqrt_") and k[5:] in inv:
+            return "sqrt_" + inv[k[5:]]
         return k
 
     def walk(x):
@@ -237,11 +269,22 @@ def unname_obs(obs, inv):
 
 
 # ----------------------------------------------------------------------------- construction
-def mk_reaction(rx, param):
+def mk_reaction(rx, param, exact_half=False):
+    """A Reaction from the four coefficient maps.  `half` (power-law orders): for the marked species
+    half a unit moves from the active to the inactive reactant part (active coefficient n - 1/2,
+    written 0.5 / 1.5 ... as in '1.5 A', or as a Fraction when exact_half)."""
     from chempy import Reaction
-    return Reaction(dict((k, v) for k, v in rx["reac"]), dict((k, v) for k, v in rx["prod"]), param,
-                    inact_reac=dict((k, v) for k, v in rx["ireac"]),
-                    inact_prod=dict((k, v) for k, v in rx["iprod"]))
+    reac = dict((k, v) for k, v in rx["reac"])
+    ireac = dict((k, v) for k, v in rx["ireac"])
+    kw = {}
+    for k, h in rx.get("half") or []:
+        if h:
+            hv = Fraction(1, 2) if exact_half else 0.5
+            reac[k] = reac[k] - hv
+            ireac[k] = ireac.get(k, 0) + hv
+            kw["dont_check"] = {"all_integral"}
+    return Reaction(reac, dict((k, v) for k, v in rx["prod"]), param, inact_reac=ireac,
+                    inact_prod=dict((k, v) for k, v in rx["iprod"]), **kw)
 
 
 def substances_for(cin):
@@ -256,7 +299,7 @@ def substances_for(cin):
 
 def mk_system(cin, params, substances=None):
     from chempy import ReactionSystem
-    rxns = [mk_reaction(rx, p) for rx, p in zip(cin["rxns"], params)]
+    rxns = [mk_reaction(rx, p, exact_half=bool(cin.get("_exact_half"))) for rx, p in zip(cin["rxns"], params)]
     return ReactionSystem(rxns, substances_for(cin) if substances is None else substances)
 
 
@@ -354,16 +397,19 @@ def stoich_tables(rsys, subst, rxns):
     from chempy.util.stoich import get_coeff_mtx
 
     def ints(m):
-        return [[int(x) for x in row] for row in m]
+        return [[proj_int(x) for x in row] for row in m]
+
+    def rats(m):
+        return [[proj_num(x) for x in row] for row in m]
     o = {}
     o["net"] = guarded(lambda: ints(rsys.net_stoichs()))
     o["net_keys"] = guarded(lambda: ints(rsys.net_stoichs(subst)))
-    o["areac"] = guarded(lambda: ints(rsys.active_reac_stoichs()))
+    o["areac"] = guarded(lambda: rats(rsys.active_reac_stoichs()))
     o["allreac"] = guarded(lambda: ints(rsys.all_reac_stoichs()))
     o["aprod"] = guarded(lambda: ints(rsys.active_prod_stoichs()))
     o["allprod"] = guarded(lambda: ints(rsys.all_prod_stoichs()))
-    o["coeff"] = guarded(lambda: ints(get_coeff_mtx(subst, [(r.reac, r.prod) for r in rsys.rxns])))
-    o["order"] = guarded(lambda: [int(r.order()) for r in rsys.rxns])
+    o["coeff"] = guarded(lambda: rats(get_coeff_mtx(subst, [(r.reac, r.prod) for r in rsys.rxns])))
+    o["order"] = guarded(lambda: [proj_num(r.order()) for r in rsys.rxns])
     o["rkeys"] = guarded(lambda: [sorted(r.keys()) for r in rsys.rxns])
     return o
 
@@ -376,6 +422,7 @@ def observe_numeric(cin, mode, pform="plain", container="list", extras=False):
     from chempy.kinetics.ode import dCdt_list, law_of_mass_action_rates
     from chempy.kinetics.rates import MassAction
     cin, inv = actualize(cin)
+    cin = dict(cin, _exact_half=(mode == "frac"))
     subst = list(cin["subst"])
     params = [_param_form(pform, rx["k"], conv(kv, mode)) for rx, kv in zip(cin["rxns"], initial_kvs(cin))]
     rsys = guarded(mk_system, cin, params)
@@ -432,7 +479,7 @@ def observe_selection(cin, mode, keys):
     obs = {}
     obs["contrib"] = [guarded(lambda r=r: proj_dict(r.rate(v, substance_keys=tuple(keys)), keys)) for r in rsys.rxns]
     obs["rates"] = guarded(lambda: proj_dict(rsys.rates(v, substance_keys=list(keys)), keys))
-    obs["net"] = guarded(lambda: [[int(x) for x in row] for row in rsys.net_stoichs(keys)])
+    obs["net"] = guarded(lambda: [[proj_int(x) for x in row] for row in rsys.net_stoichs(keys)])
     return obs
 
 
@@ -442,6 +489,7 @@ def observe_symbolic(cin, kmode):
     import sympy
     from chempy.kinetics.ode import dCdt_list, law_of_mass_action_rates
     cin, inv = actualize(cin)
+    cin = dict(cin, _exact_half=(kmode == "sym"))
     subst = list(cin["subst"])
     if kmode == "num":
         params = [conv(kv, "sym") for kv in initial_kvs(cin)]
@@ -491,7 +539,9 @@ def gen_system(rng, rational):
     nr = rng.randint(1, 4 if rational else 6)
     max_order = 3 if rational else 5
     rxns = []
-    while len(rxns) < nr:
+    tries = 0
+    while len(rxns) < nr and (tries < 200 or not rxns):   # bounded: rejected draws cannot loop for ever
+        tries += 1
         reac, prod, ireac, iprod = {}, {}, {}, {}
         order = rng.choice([0, 1, 1, 2, 2, 3, max_order])
         left = order
@@ -514,7 +564,11 @@ def gen_system(rng, rational):
         kv = [rng.choice([1, 2, 3, 5, 7, 9]), 1] if not rational else [rng.choice([1, 2, 3, 5]), rng.choice([1, 2])]
         if kv[0] % 2 == 0 and kv[1] == 2:
             kv = [kv[0] // 2, 1]
-        rx = {"reac": reac, "prod": prod, "ireac": ireac, "iprod": iprod, "kv": kv}
+        half = {}
+        if not rational and reac and rng.random() < 0.15:
+            # a power-law order: half a unit of one active reactant is inactive
+            half[rng.choice(sorted(reac))] = 1
+        rx = {"reac": reac, "prod": prod, "ireac": ireac, "iprod": iprod, "half": half, "kv": kv}
         if rx in rxns:
             continue  # chempy refuses exact duplicates (same stoichiometry and same constant)
         rxns.append(rx)
@@ -523,6 +577,9 @@ def gen_system(rng, rational):
     else:
         pool = [[x, 1] for x in (1, 2, 3, 4, 5)]
     c = {s: rng.choice(pool) for s in subst}
+    for r in rxns:
+        for s in r["half"]:
+            c[s] = rng.choice([[1, 1], [4, 1]])   # perfect squares keep the square root exact
     feed = None
     if rng.random() < 0.3:
         feed = {"F": rng.choice(pool), "cf": {s: rng.choice(pool) for s in subst}, "order": list(subst),
@@ -557,7 +614,7 @@ def system_to_case_in(sysd):
     for i, r in enumerate(sysd["rxns"]):
         rx.append({"reac": sorted(r["reac"].items()), "prod": sorted(r["prod"].items()),
                    "ireac": sorted(r["ireac"].items()), "iprod": sorted(r["iprod"].items()),
-                   "k": i + 1, "kv": cur[i]})
+                   "half": sorted((r.get("half") or {}).items()), "k": i + 1, "kv": cur[i]})
     fd = sysd["feed"]
     return {"subst": subst, "rxns": rx, "c": [sysd["c"][s] for s in subst],
             "sphase": [int((sysd.get("phase") or {}).get(s, 0)) for s in subst], "hist": hist,
@@ -570,7 +627,8 @@ def system_events(sysd):
     ev = []
     for r in sysd["rxns"]:
         ev.append({"ev": "AddReaction", "reac": full_map(r["reac"]), "prod": full_map(r["prod"]),
-                   "ireac": full_map(r["ireac"]), "iprod": full_map(r["iprod"]), "kv": r["kv"]})
+                   "ireac": full_map(r["ireac"]), "iprod": full_map(r["iprod"]),
+                   "half": full_map(r.get("half") or {}), "kv": r["kv"]})
     cfull = {s: sysd["c"].get(s, [1, 1]) for s in TRACE_SPECIES}
     ev.append({"ev": "SetState", "subst": sysd["subst"], "c": cfull,
                "phase": {s: int((sysd.get("phase") or {}).get(s, 0)) for s in TRACE_SPECIES}})
@@ -585,26 +643,33 @@ def system_events(sysd):
 
 
 # ----------------------------------------------------------------------------- C04: building ODE systems
-_LIN = []
+_LIN = {}
 
 
-def lin_class():
-    """The substituted expression  k := a * T  ("expr"/"expruk" substitutions of OdeBuild.tla):
-    a chempy Expr with one argument a and one parameter key T."""
-    if not _LIN:
+def lin_class(tkey="T"):
+    """The substituted expression  k := a * <tkey>  ("expr"/"expruk" substitutions of OdeBuild.tla):
+    a chempy Expr with one argument a and one parameter key (T1, T2, ... Tg: every substituted key
+    has its own, so several expression substitutions are independent of each other)."""
+    if tkey not in _LIN:
         from chempy.util._expr import Expr
 
         class Lin(Expr):
             argument_names = ("a",)
-            parameter_keys = ("T",)
+            parameter_keys = (tkey,)
 
             def __call__(self, variables, backend=None, **kw):
                 (a,) = self.all_args(variables, backend=backend)
                 (T,) = self.all_params(variables, backend=backend)
                 return a * T
 
-        _LIN.append(Lin)
-    return _LIN[0]
+        Lin.__name__ = "Lin_" + tkey
+        _LIN[tkey] = Lin
+    return _LIN[tkey]
+
+
+def _aval(cfg, i):
+    av = cfg.get("avals")
+    return conv(av[i] if av else cfg["aval"], "int")
 
 
 _PARLIN = []
@@ -734,16 +799,18 @@ def build_odesys_full(cin):
     from chempy.util._expr import Constant
     cfg = cin["cfg"]
     params = [param_obj(kd, rx["k"], kv, cfg) for kd, rx, kv in zip(cfg["kinds"], cin["rxns"], initial_kvs(cin))]
-    if cfg["comp"]:
+    if cfg["comp"] or cfg.get("alias"):
+        # alias: the substances are handed over under keys that differ from Substance.name
+        pre = "n_" if cfg.get("alias") else ""
+        comps = cin["comp"] if cfg["comp"] else [None] * len(cin["subst"])
         substances = OrderedDict(
-            (s, Substance(s, composition=dict((int(k), int(v)) for k, v in comp)))
-            for s, comp in zip(cin["subst"], cin["comp"]))
+            (s, Substance(pre + s, composition=None if comp is None else dict((int(k), int(v)) for k, v in comp)))
+            for s, comp in zip(cin["subst"], comps))
         from chempy import ReactionSystem
         rxns = [mk_reaction(rx, p) for rx, p in zip(cin["rxns"], params)]
         rsys = ReactionSystem(rxns, substances, dont_check={"balance"})
     else:
         rsys = mk_system(cin, params)
-    Lin = lin_class()
     a = conv(cfg["aval"], "int")
     order = cin["feed"].get("order") or cin["subst"]
     if cin.get("hist"):
@@ -761,13 +828,13 @@ def build_odesys_full(cin):
             elif sk == "num":
                 subs[kname(rx["k"])] = conv(cfg["subvals"][i], "int")
             elif sk == "expr":
-                subs[kname(rx["k"])] = Lin([a])
+                subs[kname(rx["k"])] = lin_class("T%d" % rx["k"])([_aval(cfg, i)])
             elif sk == "expruk":
-                subs[kname(rx["k"])] = Lin([a], unique_keys=("a1",))
+                subs[kname(rx["k"])] = lin_class("T%d" % rx["k"])([_aval(cfg, i)], unique_keys=("a%d" % rx["k"],))
         if cfg.get("gsub", "none") == "num":
             subs["g"] = conv(cfg["gsubval"], "int")
         elif cfg.get("gsub", "none") == "expr":
-            subs["g"] = Lin([a])
+            subs["g"] = lin_class("Tg")([a])
         if cfg.get("fsub", "none") == "num":
             subs[FEEDVAR] = conv(cfg["fsubval"], "int")
         kw = {}
@@ -799,7 +866,7 @@ def build_odesys_full(cin):
         if sk == "num":
             pe[kname(rx["k"])] = Constant([conv(cfg["subvals"][i], "int")])
         elif sk in ("expr", "expruk"):
-            pe[kname(rx["k"])] = Lin([a])
+            pe[kname(rx["k"])] = lin_class("T%d" % rx["k"])([_aval(cfg, i)])
     kw = {}
     if pe:
         kw["parameter_expressions"] = pe
@@ -880,7 +947,7 @@ def observe_odesys(cin):
     def bmat():
         if li is None:
             return []
-        return [[int(x) for x in row] for row in sympy.Matrix(li).tolist()]
+        return [[proj_int(x) for x in row] for row in sympy.Matrix(li).tolist()]
     obs["B"] = guarded(bmat)
     return unname_obs(obs, inv)
 
@@ -944,6 +1011,14 @@ def gen_build_config(rng, n, substs=(), feed=False):
                 if builder == "get_odesys":
                     subs[i] = rng.choice(["none", "num", "num2"])
     cfg["qval"] = [rng.choice([2, 3, 5]), 1]
+    cfg["avals"] = [[rng.choice([2, 3, 5]), 1] for _ in range(n)]
+    cfg["tvals"] = [[rng.choice([2, 3, 7]), 1] for _ in range(n)]
+    # several independent expression substitutions at once
+    if builder == "get_odesys" and rng.random() < 0.3:
+        for i in named:
+            if kinds[i] in ("str", "ma_fk", "ma_uk") and subs[i] in ("none", "num") and rng.random() < 0.7:
+                subs[i] = rng.choice(["expr", "expruk"])
+    cfg["alias"] = builder == "create_odesys" and rng.random() < 0.3
     cfg["rebuild"] = rng.random() < 0.2
     cfg["implicit"] = rng.random() < 0.3
     if builder == "create_odesys":
@@ -956,7 +1031,7 @@ def gen_build_config(rng, n, substs=(), feed=False):
 def default_pk_fields():
     return {"gsub": "none", "fsub": "none", "consts": [], "symorder": [],
             "gval": [1, 1], "gsubval": [1, 1], "gconst": [1, 1], "fsubval": [1, 1], "fconst": [1, 1],
-            "qval": [1, 1], "pfull": False, "psym": "none", "symodict": False, "rebuild": False, "implicit": False}
+            "qval": [1, 1], "avals": [[1, 1]] * 8, "tvals": [[1, 1]] * 8, "alias": False, "pfull": False, "psym": "none", "symodict": False, "rebuild": False, "implicit": False}
 
 
 # ----------------------------------------------------------------------------- repository suite (code -> spec)
